@@ -266,7 +266,7 @@ PROPS["C17"]["rule"] += " mgr (schedules): 2-4 threads among CreateCircuit(same 
 PROPS["C17"]["trusted_base"] = PROPS["C17"]["trusted_base"] + TB_SCHED
 
 PROPS["C20"] = {
-    "components": [Seq("consumers", 600, 30000)],
+    "components": [Seq("consumers", 600, 16000)],
     "rule": "consumers: histories of calls of all seven run kinds and three fallback kinds (durations around MaximumHealthyTime and Timeout +-1), manual open/close (short-circuits), limits 0 (rejections), clock steps across partial/full stats windows, on a circuit created through a Manager with rolling.StatFactory and the SLO factory; "
             "queries: per-kind totals and rolling sums, ErrorPercentage (as exact rational of the double), SLO pass/fail and collector callbacks, hystrix event-stream record through the real HTTP handler; non-trivial = at least one clock step; distinct by FNV hash",
     "trusted_base": TB_CIRCUIT + ["the event-stream record is fetched through Start/ServeHTTP with a 1 ms tick while the substitute clock is frozen (so that the number of ticks does not matter)", "encoding/json of the record"],
